@@ -9,6 +9,7 @@ import (
 	"sort"
 	"strings"
 
+	"golang.org/x/tools/go/callgraph"
 	"golang.org/x/tools/go/packages"
 	"golang.org/x/tools/go/ssa"
 	"golang.org/x/tools/go/ssa/ssautil"
@@ -35,6 +36,7 @@ type World struct {
 	callersOf map[*ssa.Function][]*ssa.CallInstruction
 	callerIdx map[*ssa.Function][]ssa.CallInstruction // lazily built static call index
 	Tags      string
+	cg        *callgraph.Graph
 }
 
 // undecidedErr is raised (by panic) when an anchor named in a rule table does
